@@ -3,7 +3,7 @@
 use std::panic::{catch_unwind, AssertUnwindSafe};
 
 use re::math::color::*;
-use re::math::{Affine, Vector};
+use re::math::{Affine, Linear, Vector};
 
 use vharness::util::*;
 
@@ -263,6 +263,52 @@ pub fn gen(rng: &mut Rng, tier: Tier, out: &mut Vec<String>) {
         out.push(format!("add3 {} {} {} {} {} {}", rng.below(256), rng.below(256), rng.below(256), d(rng), d(rng), d(rng)));
         out.push(format!("add4 {} {} {} {} {} {} {} {}", rng.below(256), rng.below(256), rng.below(256), rng.below(256), d(rng), d(rng), d(rng), d(rng)));
     }
+    // ---- channel accessors, gray(), Linear::zero()
+    for _ in 0..(if q { 300 } else { 10_000 }) {
+        let w = if rng.chance(1, 5) { *rng.pick(&[0u32, 0xffff_ffff, 0x0102_0304, 0xff00_00ff, 0x8000_7fff]) } else { rng.u32() };
+        out.push(format!("acc8 {}", hu32(w)));
+        // distinct channels (also NaN / inf / -0.0 patterns: accessors must be bit-transparent)
+        let mut c = [rng.unit(), rng.unit() + 1.0, -rng.unit(), rng.unit() * 100.0];
+        if rng.chance(1, 4) {
+            c[rng.below(4) as usize] = f32::from_bits(*rng.pick(SPECIAL_F32));
+        }
+        out.push(format!("facc {} {} {} {}", h32(c[0]), h32(c[1]), h32(c[2]), h32(c[3])));
+    }
+    // ---- gamma: to_linear / to_srgb (fix 0 and 1, monotone on neighbouring inputs, mutually inverse)
+    for &x in &[0.0f32, 1.0, 0.5, 0.25, 0.75, 1e-3, 1e-6, 1e-12, 1e-30, 0.999_999_9, f32::from_bits(1), f32::MIN_POSITIVE] {
+        out.push(format!("fgamma {} {} {}", h32(x), h32(ulp_step(x, 1).min(1.0)), h32(ulp_step(x, -1))));
+    }
+    for k in 0..=255u32 {
+        let x = k as f32 / 255.0;
+        out.push(format!("fgamma {} {} {}", h32(x), h32((x + 1.0 / 512.0).min(1.0)), h32(x * 0.5)));
+    }
+    for i in 0..(if q { 1500 } else { 60_000 }) {
+        let a = match i % 4 {
+            0 => rng.unit(),
+            1 => rng.unit() * rng.unit() * rng.unit() * rng.unit(),
+            2 => 1.0 - rng.unit() * 1e-3,
+            _ => f32::from_bits(rng.below(0x3f80_0001) as u32), // log-uniform over (0, 1]
+        };
+        // three increasing inputs: a, a few ulp above, and a random larger one
+        let b = ulp_step(a, 1 + rng.below(8) as i32).min(1.0);
+        let c = (b + rng.unit() * (1.0 - b)).min(1.0);
+        out.push(format!("fgamma {} {} {}", h32(a), h32(b), h32(c)));
+    }
+    // ---- Affine::sub and add-back
+    for &a in &edge8 {
+        for &b in &edge8 {
+            out.push(format!("sub3 {a} {b} {} {b} {a} {}", 255 - a, 255 - b));
+        }
+    }
+    for _ in 0..(if q { 600 } else { 20_000 }) {
+        let mut v = [0u64; 8];
+        for x in v.iter_mut() {
+            *x = rng.below(256);
+        }
+        out.push(format!("sub3 {} {} {} {} {} {}", v[0], v[1], v[2], v[3], v[4], v[5]));
+        out.push(format!("sub4 {} {} {} {} {} {} {} {}", v[0], v[1], v[2], v[3], v[4], v[5], v[6], v[7]));
+    }
+    out.push("dsub".to_string());
     // every (u8, diff) pair with diff in -640..640 (covers every difference of two u8 colours, doubled)
     let mut d0 = -640i64;
     while d0 < 640 {
@@ -435,6 +481,67 @@ pub fn run(t: &[&str]) -> String {
             let c3 = rgb(c[0], c[1], c[2]);
             let c4 = rgba(c[0], c[1], c[2], c[3]);
             format!("{} {} {} {}", b3(c3.to_color3().0), b4(c3.to_color4().0), b3(c4.to_color3().0), b4(c4.to_color4().0))
+        }
+        // channel accessors r/g/b/a, h/s/l/a and gray() on 8-bit colours (bytes of the case word)
+        "acc8" => {
+            let [x, y, z, w] = pu32h(t[1]).to_be_bytes();
+            let (c3, c4, h3, h4) = (rgb(x, y, z), rgba(x, y, z, w), hsl(x, y, z), hsla(x, y, z, w));
+            format!(
+                "{} {} {} {} {} {} {} {} {} {} {} {} {} {} {}",
+                c3.r(), c3.g(), c3.b(), c4.r(), c4.g(), c4.b(), c4.a(),
+                h3.h(), h3.s(), h3.l(), h4.h(), h4.s(), h4.l(), h4.a(), b3(gray(x).0)
+            )
+        }
+        // the same on float colours, plus Linear::zero() for 3- and 4-channel float colours
+        "facc" => {
+            let c: Vec<f32> = t[1..5].iter().map(|s| pf32(s)).collect();
+            let (c3, c4) = (rgb(c[0], c[1], c[2]), rgba(c[0], c[1], c[2], c[3]));
+            let (h3, h4) = (hsl(c[0], c[1], c[2]), hsla(c[0], c[1], c[2], c[3]));
+            let acc = [c3.r(), c3.g(), c3.b(), c4.r(), c4.g(), c4.b(), c4.a(),
+                       h3.h(), h3.s(), h3.l(), h4.h(), h4.s(), h4.l(), h4.a()];
+            let acc: Vec<String> = acc.iter().map(|x| h32(*x)).collect();
+            let z3: Color3f = Linear::zero();
+            let z4: Color4f = Linear::zero();
+            format!("{} {} {} {} {}", acc.join(" "), f3(gray(c[0]).0), f3(c4.to_rgb().0), f3(z3.0), f4(z4.0))
+        }
+        // gamma: to_linear, to_srgb, both round trips, per channel
+        "fgamma" => {
+            let c = rgb(pf32(t[1]), pf32(t[2]), pf32(t[3]));
+            let lin = c.to_linear();
+            let lc: Color3f<LinRgb> = c.0.into();
+            let srgb = lc.to_srgb();
+            format!("{} {} {} {}", f3(lin.0), f3(srgb.0), f3(lin.to_srgb().0), f3(srgb.to_linear().0))
+        }
+        // Affine::sub of 8-bit colours, and adding the difference back
+        "sub3" => {
+            let c = rgb(pu8(t[1]), pu8(t[2]), pu8(t[3]));
+            let d = rgb(pu8(t[4]), pu8(t[5]), pu8(t[6]));
+            let diff = d.sub(&c);
+            format!("{} {} {} {}", diff.0[0], diff.0[1], diff.0[2], b3(c.add(&diff).0))
+        }
+        "sub4" => {
+            let c = rgba(pu8(t[1]), pu8(t[2]), pu8(t[3]), pu8(t[4]));
+            let d = rgba(pu8(t[5]), pu8(t[6]), pu8(t[7]), pu8(t[8]));
+            let diff = d.sub(&c);
+            format!("{} {} {} {} {}", diff.0[0], diff.0[1], diff.0[2], diff.0[3], b4(c.add(&diff).0))
+        }
+        // all 2^16 (u8, u8) channel pairs: digest of the differences, number of pairs where the
+        // difference is not d - c or adding it back does not give d
+        "dsub" => {
+            let mut h = FNV_INIT;
+            let mut nbad = 0u32;
+            for a in 0..=255u8 {
+                for b in 0..=255u8 {
+                    let (c, d) = (rgb(a, b, 255 - a), rgb(b, a, b));
+                    let diff = d.sub(&c);
+                    for k in 0..3 {
+                        h = mix(h, diff.0[k] as u32);
+                        nbad += (diff.0[k] != d.0[k] as i32 - c.0[k] as i32) as u32;
+                    }
+                    nbad += (c.add(&diff) != d) as u32;
+                }
+            }
+            format!("{} {}", h64(h), nbad)
         }
         "add3" => {
             let c = rgb(pu8(t[1]), pu8(t[2]), pu8(t[3]));
